@@ -23,6 +23,7 @@ import (
 	"berty.tech/go-orbit-db/stores"
 	"berty.tech/go-orbit-db/stores/operation"
 	"berty.tech/go-orbit-db/stores/replicator"
+	"berty.tech/go-orbit-db/verifhook"
 	"github.com/ipfs/boxo/path"
 	cid "github.com/ipfs/go-cid"
 	datastore "github.com/ipfs/go-datastore"
@@ -303,6 +304,7 @@ func (b *BaseStore) InitBaseStore(ipfs coreiface.CoreAPI, identity *identityprov
 
 			case replicator.EventLoadEnd:
 				span.AddEvent("replicator-load-end")
+				verifhook.Point("store.load-end", b)
 
 				// @FIXME(gfanton): should we run this in a goroutine ?
 				b.replicationLoadComplete(ctx, evt.Logs)
@@ -840,6 +842,7 @@ func (b *BaseStore) AddOperation(ctx context.Context, op operation.Operation, on
 	if err != nil {
 		return nil, fmt.Errorf("unable to append data on log: %w", err)
 	}
+	verifhook.Point("store.after-append", b)
 
 	b.recalculateReplicationStatus(e.GetClock().GetTime())
 
@@ -852,10 +855,12 @@ func (b *BaseStore) AddOperation(ctx context.Context, op operation.Operation, on
 	if err != nil {
 		return nil, fmt.Errorf("unable to add data to cache: %w", err)
 	}
+	verifhook.Point("store.after-head-persisted", b)
 
 	if err := b.updateIndex(ctx); err != nil {
 		return nil, fmt.Errorf("unable to update index: %w", err)
 	}
+	verifhook.Point("store.after-index", b)
 
 	if err := b.emitters.evtWrite.Emit(stores.NewEventWrite(b.Address(), e, oplog.Heads().Slice())); err != nil {
 		b.logger.Warn("unable to emit event write", zap.Error(err))
